@@ -21,6 +21,11 @@ def steps_for(ctx, prop):
     if ctx.hardware_avx512:
         st.append(('%s_avx2_plainx512' % prop.lower(), 'avx2', 'plainx512'))
     st.append(('%s_avx2_plainxnative' % prop.lower(), 'avx2', 'plainxnative'))
+    # ... and with another compiler (clang++ evaluates function arguments left to right, g++ right to left; unspecified behaviour
+    # the code may not rely on).  Built without OpenMP (no libomp here); optional: if clang++ rejects the sources the step is skipped
+    import shutil
+    if shutil.which('clang++'):
+        st.append(('%s_avx2_plainxclang' % prop.lower(), 'avx2', 'plainxclang'))
     return st
 
 
@@ -48,7 +53,7 @@ def build(ctx, prop, main_cpp, only_step=None, extra_objs=(), extra_links=()):
         ctx.ovl_items, ctx.ovl_notes = g['items'], g['notes']
     for name, isa, mode in steps:
         g = gens[isa]
-        fl = ctx.flags_native(avx512=(isa == 'avx512' or mode == 'plainx512'), omp=(mode != 'tsan'), extra=inc + (ASAN if mode == 'asan' else TSAN if mode == 'tsan' else ['-march=native'] if mode == 'plainxnative' else []))
+        fl = ctx.flags_native(avx512=(isa == 'avx512' or mode == 'plainx512'), omp=(mode not in ('tsan', 'plainxclang')), extra=inc + (ASAN if mode == 'asan' else TSAN if mode == 'tsan' else ['-march=native'] if mode == 'plainxnative' else ['--cxx=clang++', '--optional', '-DOVL_NOOMP'] if mode == 'plainxclang' else []))
         mine = []
         for k, tu in enumerate(g['tus']):
             on = '%s_w%d.o' % (name, k)
